@@ -21,7 +21,7 @@ RULE = ('grid coordinates in zones 46..59, eastings 100 000..900 000, latitudes 
         '(0.3 mm horizontally as a ground position, 0.2 mm in height), zone = natural zone of the transformed position, height 0 '
         'and horizontal result of the point on the ellipsoid when no height is given; round trip returns the same ground position '
         '(0.3 mm / 0.2 mm); returned covariance symmetric PSD and equal to R2^T (Jx R1 V R1^T Jx^T + Jp S Jp^T) R2 with the '
-        'published uncertainties.  every returned object that holds an array is kept with a copy and compared again after later calls (results are values: `earlier-result-changed-by-later-call`).  distinct = direction x zone x |lat| band x height class x covariance kind x edge flag')
+        'published uncertainties.  every returned object that holds an array is kept with a copy and compared again after later calls (results are values: `earlier-result-changed-by-later-call`).  distinct = direction x zone x |lat| band x height class x covariance kind x edge flag Covariance classes as in C06 (magnitudes 1e-14..1e12, wide range inside one matrix, tied components, extreme variance columns).')
 ASSUMPTIONS = ['tm_exact, helmert_exact and the closed-form Cartesian oracle (each self-validated per shard)',
                'GDA94->GDA2020 parameters and uncertainties as published in the GDA2020 technical manual, typed in this file',
                '"the same ground position" is compared after re-projection into one zone (the result is by definition expressed in '
